@@ -21,12 +21,22 @@ pub broadcast axiom fn axiom_sha256_len(data: Seq<u8>)
 pub axiom fn axiom_sha256_cr(a: Seq<u8>, b: Seq<u8>)
     ensures sha256(a) == sha256(b) ==> a == b;
 
-/// `sha2::Digest` (digest-0.10 src/digest.rs) as a marker for `Deriver<D>`
-pub trait Digest {}
+/// `sha2::Digest` (digest-0.10 src/digest.rs): the one-shot `digest` used by
+/// `Deriver::derive`; `hash` is the function the implementor computes
+pub trait Digest {
+    spec fn hash(data: Seq<u8>) -> Seq<u8>;
+    /// `Digest::digest(data: impl AsRef<[u8]>) -> Output<Self>` at `&[u8]`
+    fn digest(data: &[u8]) -> (r: Sha256Output)
+        ensures r@ == Self::hash(data@);
+}
 /// `sha2::Sha256` hasher state: the bytes fed so far
 #[verifier::external_body]
 pub struct Sha256 { _p: () }
-impl Digest for Sha256 {}
+impl Digest for Sha256 {
+    open spec fn hash(data: Seq<u8>) -> Seq<u8> { sha256(data) }
+    #[verifier::external_body]
+    fn digest(data: &[u8]) -> (r: Sha256Output) { unimplemented!() }
+}
 /// `GenericArray<u8, U32>` output of `finalize` / `digest`
 #[verifier::external_body]
 pub struct Sha256Output { _p: () }
@@ -54,11 +64,6 @@ impl Sha256 {
     #[verifier::external_body]
     pub fn finalize(self) -> (r: Sha256Output)
         ensures r@ == sha256(self.fed()),
-    { unimplemented!() }
-    /// `Digest::digest(data)`: one-shot hash
-    #[verifier::external_body]
-    pub fn digest(data: &[u8]) -> (r: Sha256Output)
-        ensures r@ == sha256(data@),
     { unimplemented!() }
 }
 
@@ -180,11 +185,62 @@ pub uninterp spec fn KDF(kind: KeyDerivation, password: Seq<u8>, salt: Seq<char>
 pub axiom fn axiom_kdf(k1: KeyDerivation, p1: Seq<u8>, s1: Seq<char>, k2: KeyDerivation, p2: Seq<u8>, s2: Seq<char>)
     ensures KDF(k1, p1, s1) == KDF(k2, p2, s2) ==> k1 == k2 && p1 == p2 && s1 == s2;
 
+/// `password_hash::PasswordHash<'a>` (password-hash-0.5.0 src/lib.rs): a parsed
+/// PHC string borrowing the salt; `phc` = its serialised bytes
+#[verifier::external_body]
+pub struct PasswordHash<'a> { _p: core::marker::PhantomData<&'a SaltString> }
+impl<'a> PasswordHash<'a> {
+    pub uninterp spec fn phc(&self) -> Seq<u8>;
+    /// `serialize`: the PHC string as an owned `PasswordHashString`
+    #[verifier::external_body]
+    pub fn serialize(&self) -> (r: PasswordHashString)
+        ensures r.phc() == self.phc(),
+    { unimplemented!() }
+}
+/// `password_hash::PasswordHashString`
+#[verifier::external_body]
+pub struct PasswordHashString { _p: () }
+impl PasswordHashString {
+    pub uninterp spec fn phc(&self) -> Seq<u8>;
+    /// `as_bytes`: the PHC string's bytes
+    #[verifier::external_body]
+    pub fn as_bytes(&self) -> (r: &[u8])
+        ensures r@ == self.phc(),
+    { unimplemented!() }
+}
+/// `argon2::Argon2` with default parameters (argon2-0.5.3: Argon2id v19, m=19456, t=2, p=1)
+pub struct Argon2 { pub _p: () }
+impl Default for Argon2 { fn default() -> Argon2 { Argon2 { _p: () } } }
+impl Argon2 {
+    /// `PasswordHasher::hash_password(&self, password, salt)`
+    #[verifier::external_body]
+    pub fn hash_password<'a>(&self, password: &[u8], salt: &'a SaltString) -> (r: core::result::Result<PasswordHash<'a>, PasswordHashError>)
+        ensures r is Ok ==> r->Ok_0.phc() == KDF(KeyDerivation::Argon2Id, password@, salt@),
+    { unimplemented!() }
+}
+/// `balloon_hash::Balloon<Sha256>` with default parameters (balloon-hash-0.4.0)
+#[verifier::reject_recursive_types(D)]
+pub struct Balloon<D> { pub _p: core::marker::PhantomData<D> }
+impl<D> Default for Balloon<D> { fn default() -> Balloon<D> { Balloon { _p: core::marker::PhantomData } } }
+impl<D> Balloon<D> {
+    #[verifier::external_body]
+    pub fn hash_password<'a>(&self, password: &[u8], salt: &'a SaltString) -> (r: core::result::Result<PasswordHash<'a>, PasswordHashError>)
+        ensures r is Ok ==> r->Ok_0.phc() == KDF(KeyDerivation::BalloonHash, password@, salt@),
+    { unimplemented!() }
+}
+/// `<[T]>::to_vec` (alloc/src/slice.rs): clones every element
+pub assume_specification<T: Clone> [<[T]>::to_vec] (s: &[T]) -> (r: Vec<T>)
+    ensures r@.len() == s@.len(), forall|i: int| 0 <= i < s@.len() ==> call_ensures(T::clone, (&s@[i],), #[trigger] r@[i]);
+
 pub open spec fn seed_bytes(seed: Option<Seq<u8>>) -> Seq<u8> {
     match seed { Some(s) => s, None => Seq::<u8>::empty() }
 }
 /// what `Deriver::derive` computes (key_derivation.rs:131): SHA-256 of the PHC
 /// string of KDF(password bytes ++ seed bytes, salt)
 pub open spec fn derive_key(kind: KeyDerivation, password: Seq<char>, salt: Seq<char>, seed: Option<Seq<u8>>) -> Seq<u8> {
-    sha256(KDF(kind, utf8(password) + seed_bytes(seed), salt))
+    sha256(KDF(kind, vstd::utf8::encode_utf8(password) + seed_bytes(seed), salt))
+}
+/// the same for a `Deriver<D>` over any digest `D`
+pub open spec fn derive_key_d<D: Digest>(kind: KeyDerivation, password: Seq<char>, salt: Seq<char>, seed: Option<Seq<u8>>) -> Seq<u8> {
+    D::hash(KDF(kind, vstd::utf8::encode_utf8(password) + seed_bytes(seed), salt))
 }
